@@ -73,7 +73,7 @@ def py_str(s, rnd=None):
         elif ch == '\r':
             out.append('\\r')
         elif ch == '\t':
-            out.append('\\t')
+            out.append('\\t' if (rnd is None or rnd.random() < 0.5) else '\t')      # a RAW tab inside a literal is content too (tabs BETWEEN tokens are white space)
         else:
             out.append(ch)
     return q + ''.join(out) + q
@@ -378,7 +378,7 @@ def gen_str_expr(rnd, ncols, depth=2, allow_b=False, bcols=2):
         return ['a', rnd.randrange(_w(ncols))]
     if r < 0.6:
         # `$`-sequences are replacement patterns of JavaScript's String.replace / replaceAll: literal text must go through the code templates verbatim
-        return ['lit', rnd.choice(STR_POOL + ['select', 'where x', '* ,', "it's", 'say "hi"', 'a1', '#c', '$$', '<$&>', "US$", '$`x', "$'", '$1', '{}', '{0}', '%s', '\\1'])]
+        return ['lit', rnd.choice(STR_POOL + ['select', 'where x', '* ,', "it's", 'say "hi"', 'a1', '#c', '$$', '<$&>', "US$", '$`x', "$'", '$1', '{}', '{0}', '%s', '\\1', 'x\ty', '\t'])]
     return ['concat', gen_str_expr(rnd, ncols, depth - 1, allow_b, bcols), gen_str_expr(rnd, ncols, depth - 1, allow_b, bcols)]
 
 
